@@ -1,6 +1,6 @@
 #!/bin/sh
 # usage: tools/mutant_iso.sh <sed-expr> <file-in-repo> <Cxx> [tier] -- one-line mutation tested on the isolated copy
-M=/tmp/mut
+M="${MUT_DIR:-/tmp/mut}"
 [ -d $M/repo ] || { echo "run tools/try_patch_iso.sh once first"; exit 3; }
 git -C $M/repo checkout -q -- .
 sed -i "$1" "$M/repo/$2"
